@@ -69,11 +69,10 @@ def generate_jakes_samples(
         instance, if a `shape` of (3, 2) was provided then the shape of the
         returned h will be (3, 2, NSamples).
     """
-    # Generate time samples
-    t = np.arange(
-        current_time,  # Start time
-        NSamples * Ts + current_time,
-        Ts * 1.0000000001)
+    # Generate time samples. The times are computed from the integer sample
+    # index (exactly NSamples of them, spaced by Ts) instead of stepping a
+    # float with np.arange, whose length depends on rounding.
+    t = current_time + np.arange(NSamples) * Ts
 
     if phi_l is None:
         if shape is None:
@@ -90,7 +89,7 @@ def generate_jakes_samples(
     # Update the self._current_time variable with the value of the next
     # time sample that should be generated when _generate_time_samples
     # is called again.
-    new_current_time = t[-1] + Ts
+    new_current_time = current_time + NSamples * Ts
 
     h = (math.sqrt(1.0 / L) * np.sum(
         np.exp(1j * (2 * np.pi * Fd * np.cos(phi_l) * t + psi_l)), axis=0))
@@ -340,9 +339,11 @@ class JakesSampleGenerator(FadingSampleGenerator):
             RS = np.random
         self.RS = RS
 
-        # self._current_time will be update after each call to the
-        # `generate_more_samples` method.
-        self._current_time: float = 0.0
+        # Index of the next sample to be generated. It is updated after each
+        # call to the `generate_more_samples` method (and by
+        # `skip_samples_for_next_generation`). The time of sample number `k`
+        # is always `k * Ts`, see the `_current_time` property.
+        self._sample_index: int = 0
 
         # Update self._phi_l and self._psi_l according to self._shape
         self._set_phi_and_psi_according_to_shape()
@@ -400,6 +401,11 @@ class JakesSampleGenerator(FadingSampleGenerator):
         """The Doppler frequency (in Hertz)"""
         return self._Fd
 
+    @property
+    def _current_time(self) -> float:
+        """The time of the next sample that will be generated."""
+        return self._sample_index * self._Ts
+
     def _set_phi_and_psi_according_to_shape(self) -> None:
         """
         This will update the phi and psi attributes used to generate the
@@ -449,22 +455,23 @@ class JakesSampleGenerator(FadingSampleGenerator):
         Notes
         -----
         Each time `_generate_time_samples` is called it will update
-        `_current_time` to reflect the advance of the time after
-        generating the new samples.
+        `_sample_index` (and thus `_current_time`) to reflect the advance
+        of the time after generating the new samples.
         """
         if num_samples is None:
             num_samples = 1
 
-        # Generate a 1D numpy with the time samples
-        t = np.arange(
-            self._current_time,  # Start time
-            num_samples * self.Ts + self._current_time,
-            self.Ts * 1.0000000001)
+        # Generate a 1D numpy with the time samples. The time of each sample
+        # is computed from its integer index: there are always exactly
+        # `num_samples` of them and sample number `k` is at `k * Ts` no
+        # matter how the generation was split into calls (stepping a float
+        # time with np.arange yields a wrong number of samples once the
+        # time is large compared with Ts).
+        t = (self._sample_index + np.arange(num_samples)) * self.Ts
 
-        # Update the self._current_time variable with the value of the next
-        # time sample that should be generated when _generate_time_samples
-        # is called again.
-        self._current_time = t[-1] + self.Ts
+        # Update the index of the next sample that should be generated when
+        # _generate_time_samples is called again.
+        self._sample_index += int(num_samples)
 
         # Now we will change the shape of the 't' variable to an
         # appropriated shape for later use.
@@ -537,7 +544,7 @@ class JakesSampleGenerator(FadingSampleGenerator):
         num_samples : int
             How many samples to skip.
         """
-        self._current_time += num_samples * self.Ts
+        self._sample_index += int(num_samples)
 
     def get_similar_fading_generator(self) -> Any:
         """
